@@ -1,4 +1,5 @@
 import AmaranthVerif.Proofs.TbExact
+import AmaranthVerif.Proofs.AssignBits5
 
 /-!
 # C05 — testbench reads and writes agree with what a circuit would compute
@@ -22,6 +23,24 @@ theorem tb_eq_circuit (ctx : Ctx) (env : Env) (hok : EnvOk ctx env) (e : Expr) (
 theorem tb_in_shape (ctx : Ctx) (env : Env) (hok : EnvOk ctx env) (e : Expr) (hwf : e.wf ctx = true) :
     (shapeOf ctx e).contains (evalTb ctx env e) := by
   rw [tb_exact ctx env hok e hwf]; exact (sound ctx env hok e hwf).rng
+
+/-- The assignment statement in a circuit changes exactly the bits the Spec says (position `k` of the
+target ↦ bit `k` of the value; positions outside the addressed object dropped; everything else
+untouched) — for targets without aliasing under a slice or part-select (finding F9). The testbench
+half (`assignTb = assignSpec`) is compared on every run but not yet proved for all inputs. -/
+theorem circuit_write_spec (ctx : Ctx) (cur : Env) (hok : EnvOk ctx cur) (hE : EnvN ctx cur) (target : Expr)
+    (ht : target.twf ctx = true) (hn : target.noAlias ctx cur) (v : Int) :
+    assignRtl ctx cur target v = assignSpec ctx cur target v :=
+  assign_rtl_eq_spec ctx cur hok target ht hn v hE
+
+/-- bits the Spec does not address keep their value (signals the target does not mention included) -/
+theorem write_untouched (ctx : Ctx) (env : Env) (target : Expr) (v : Int) (hE : EnvN ctx env)
+    (ht : target.twf ctx = true) (i b : Nat) (hi : i < ctx.length) (hb : b < (ctx.shape i).width)
+    (hnot : some (i, b) ∉ lbits ctx env target) :
+    bitAt (assignSpec ctx env target v) i b = bitAt env i b := by
+  have h := (assignSpec_bits ctx env target v hE (lbits_ok ctx env target ht)).2 i b hi hb
+  rw [(lastWrite_none_iff _ 0 i b).mpr hnot] at h
+  exact h
 
 /-! Non-vacuity: a signed test value under a don't-care pattern (the `_eval_matches` path). -/
 def exCtx : Ctx := [⟨3, true⟩, ⟨4, false⟩]
